@@ -122,6 +122,8 @@ class Lower:
         t = norm_type(qt)
         if t in self.typemap:
             return self.typemap[t]
+        if re.search(r'::\*$', t):
+            return 'size_t'          # pointer to data member: an offset
         m = re.match(r'^(.*?)\s*(\*|&&|&)$', t)
         if m:
             return self._ctype(m.group(1), allow_opaque) + ' *'
@@ -439,7 +441,16 @@ class Lower:
         return x
 
     def e_UnaryOperator(self, n):
-        x = self.E(self.inner(n)[0])
+        sub = self.inner(n)[0]
+        if n.get('opcode') == '&' and sub.get('kind') == 'DeclRefExpr' and sub['referencedDecl'].get('kind') == 'FieldDecl':
+            # pointer to data member: the offset of the field in the lowered struct
+            fd = self.ast.byid.get(sub['referencedDecl']['id']) or sub['referencedDecl']
+            rec = self.ast.parent.get(fd.get('id'))
+            rq = self.ast.qname(rec) if rec is not None else None
+            if rq not in self.records:
+                raise Abort('pointer to member of a record that is not lowered: %s' % rq)
+            return 'offsetof(%s, %s)' % (self.rec_cname[rq], sub['referencedDecl']['name'])
+        x = self.E(sub)
         op = n['opcode']
         if op == '__extension__':
             return x
@@ -448,6 +459,12 @@ class Lower:
     def e_BinaryOperator(self, n):
         a, b = self.inner(n)
         op = n['opcode']
+        if op in ('->*', '.*'):
+            # obj->*ptr_to_member : the member at the given offset
+            obj = self.E(a)
+            if op == '.*':
+                obj = self.addr(obj)
+            return '(*(%s *)((char *)(%s) + (%s)))' % (self.ctype(n['type']), obj, self.E(b))
         if op in ('&&', '||', ','):
             ea = self.E(a)
             mark = len(self.pre)
@@ -1002,7 +1019,10 @@ class Lower:
         rec = norm_type((n['type'].get('desugaredQualType') or n['type']['qualType']))
         ctort = n.get('ctorType', {}).get('qualType', '')
         # copy / move construction of a value: C struct copy (unless the unit models the constructor explicitly)
-        if ('ctor:%s/1' % rec) not in self.stubs and len(ins) == 1 and self.is_copy_sig(ctort):
+        if len(ins) == 1 and self.is_copy_sig(ctort) and ('ctor:%s/copy' % rec) in self.stubs and \
+                strip_ptr(norm_type(self.param_types_from_sig(ctort)[0])).split('::')[-1].split('<')[0] == rec.split('::')[-1].split('<')[0]:
+            return self.emit_call(self.stubs['ctor:%s/copy' % rec], [self.ref_arg(ins[0], self.E(ins[0]))], n)
+        if len(ins) == 1 and self.is_copy_sig(ctort):
             pt = norm_type(self.param_types_from_sig(ctort)[0])
             if strip_ptr(pt) == rec or strip_ptr(pt).split('::')[-1] == rec.split('::')[-1]:
                 return self.E(ins[0])
